@@ -398,3 +398,9 @@ def run(ctx):
              "start to the tail inside [0, size) and stores consecutive events")
     from rules import round4
     round4.check_ring_helpers(ctx, "R16.7")
+    ctx.rule("R16.8", "check mode accepts what sort mode produces, and only OU[ / OU] delimit a region: stream_check "
+             "fails exactly on a decreasing pair of clocks; the two marker predicates are evaluated on 18 (model, "
+             "category, value) triples each")
+    from rules import round5
+    round5.check_sort_check_mode(ctx, "R16.8")
+    round5.check_region_markers(ctx, "R16.8")
